@@ -7,5 +7,5 @@ import (
 )
 
 func TestSim(t *testing.T) {
-	harness.Main(t, map[string]harness.WorldFunc{"ep": Run})
+	harness.Main(t, map[string]harness.WorldFunc{"ep": Run, "ep06": RunC06})
 }
